@@ -35,7 +35,7 @@ From Coq Require Import String.
 Local Close Scope string_scope.
 From Coq.Strings Require Import Byte.
 Import ListNotations.
-Require Import MS.Base.GoInt MS.Base.Hex MS.Base.Path.
+Require Import MS.Base.GoInt MS.Base.Hex MS.Base.Path MS.Generated.Src_catalog.
 
 (* ------------------------------------------------------------------ association lists (sorted) *)
 Fixpoint aget {A} (k : name) (l : list (name * A)) : option A :=
@@ -167,7 +167,9 @@ Definition s_category_name := Eval compute in b "category_name"%string.
 Definition s_metadata_db := Eval compute in b "metadata.db"%string.
 Definition s_year := Eval compute in b "Year"%string.
 Definition s_timeframe := Eval compute in b "Timeframe"%string.
-Definition s_default_schema := Eval compute in b "Symbol/Timeframe/AttributeGroup"%string.
+Definition s_default_schema := Eval compute in b DefaultTimeBucketSchema.       (* GENERATED from keytypes.go *)
+(** DataService.Create demands exactly [colonSeparatedPartsLen] parts: the [i; ck] pattern of [fe_create] *)
+Example create_parts_len : colonSeparatedPartsLen = 2%Z := eq_refl.
 Definition s_1970 := Eval compute in b "/1970.bin"%string.
 Definition colon : byte := x3a.
 
